@@ -102,7 +102,9 @@ def work_one(job):
                     confirmed = True
                     break
                 why = "native run satisfies the property for this valuation"
-            if not confirmed:
+            if not confirmed and f.get("abstract"):
+                res["undecided"].append(dict(tpl=f["tpl"], obl=f["obl"], detail="exact query undecided; the model of the abstract query does not violate the property on the real build"))
+            elif not confirmed:
                 res["unconfirmed"].append(dict(tpl=tpl.name, role=tpl.role, obl=f["obl"], vals=_jsonable(f.get("vals")), why=why, kind=f["kind"], neg=f.get("neg", "")[:300]))
     except Exception:
         res["errors"].append(dict(tpl=str(tdesc)[:200], detail=traceback.format_exc()[-2000:]))
